@@ -1,0 +1,20 @@
+//go:build verif
+
+package limits
+
+import "github.com/foxcpp/maddy/internal/limits/limiters"
+
+// VerifWrapNew makes every bucket limiter constructed by the keyed scopes pass
+// through wrap (scope is "ip", "source" or "dest"). The /verif limits harness
+// (property C11) uses it to append a no-op limiter to the bucket's chain that
+// serves as a yield point right after the bucket's semaphores granted their
+// permits. Must be called before the group is used. Build tag verif only.
+func (g *Group) VerifWrapNew(wrap func(scope string, l limiters.L) limiters.L) {
+	for name, bs := range map[string]*limiters.BucketSet{"ip": g.ip, "source": g.source, "dest": g.dest} {
+		if bs == nil || bs.New == nil {
+			continue
+		}
+		name, orig := name, bs.New
+		bs.New = func() limiters.L { return wrap(name, orig()) }
+	}
+}
